@@ -41,3 +41,26 @@ Example response_example :
     Build_ref_resp (Complete 19)
       (Build_ref_start_resp (Some 0%N) (Some 404%N) (Some (Sub 13 [78;111]%N))) [].
 Proof. split; [repeat constructor|vm_compute; reflexivity]. Qed.
+
+(* ---- tie to the source: every statement above is about Model.v / Api.v; Proofs/Src*.v prove that the
+   functions TRANSLATED from /repo/src/lib.rs on this run (Generated/Lib.v, LibApi.v) compute the same
+   results, for every environment whose scanners only move forward (all concrete backends do), so each
+   theorem of this file holds of the translated source by rewriting with `source_tie`.  Only the entry-point
+   families this property speaks about are imported (Resp) ---- *)
+From HV Require Import Backends.
+From HV.Proofs Require Import Mono BackendsFwd SrcResp.
+Theorem source_tie : forall E, env_fwd E -> response_source_is_model E.
+Proof. intros E HE. repeat split; first [apply src_tie_response]; exact HE. Qed.
+Print Assumptions source_tie.
+Theorem source_tie_backends : forall W be, response_source_is_model (env_of W be).
+Proof. intros W be. apply source_tie, backends_fwd. Qed.
+Print Assumptions source_tie_backends.
+
+Theorem src_response_ref_eq : forall E, env_ok E -> env_fwd E -> forall cf buf rp arr, bytes_ok buf ->
+  src_response_core E cf buf rp arr = resp_result rp arr (ref_response cf (length arr) buf).
+Proof. intros E HE HF cf buf rp arr Hb. rewrite src_response_core_eq by exact HF. apply response_core_ref; assumption. Qed.
+Print Assumptions src_response_ref_eq.
+Theorem src_response_entries_ref_eq : forall E, env_ok E -> env_fwd E -> forall e cf buf arr rp, bytes_ok buf ->
+  src_response_call E e cf buf arr rp = resp_call_result e cf buf arr rp.
+Proof. intros E HE HF e cf buf arr rp Hb. rewrite src_response_call_eq by exact HF. apply response_call_ref; assumption. Qed.
+Print Assumptions src_response_entries_ref_eq.
